@@ -202,11 +202,11 @@ func propC11(w *World, r *Report) {
 				continue
 			}
 			callee := c.Call.StaticCallee()
-			if callee == ctor {
+			if inner := ctorCallIn(ci2.fn, c, ctor); inner != nil {
 				nSites++
 				built = append(built, c)
 				var args []string
-				for _, a := range c.Call.Args {
+				for _, a := range inner.Call.Args {
 					args = append(args, he.termOf(a).String())
 				}
 				want := []string{he.termOf(ci2.fn.Params[1]).String(), hi, "headers.HeaderInfo.Brand(" + hi + ")", "headers.HeaderInfo.Model(" + hi + ")", "headers.HeaderInfo.CameraSerial(" + hi + ")", "headers.HeaderInfo.Firmware(" + hi + ")"}
@@ -227,7 +227,7 @@ func propC11(w *World, r *Report) {
 		r.Fail("H4", "camera-model motion defaults are loaded", w.Pos(ci2.fn.Pos()), "no LoadMotionConfig call in the connection handler", "")
 	} else {
 		arg := he.termOf(loadCall.Call.Args[1]).String()
-		r.Check(arg == "headers.HeaderInfo.Model("+hi+")" && loadCall.Call.Args[0] == ssa.Value(ci2.fn.Params[1]), "H4", "motion config loaded for the connected camera's model into the shared config", w.InstrPos(loadCall), arg)
+		r.Check(arg == "headers.HeaderInfo.Model("+hi+")" && he.termOf(loadCall.Call.Args[0]).String() == he.termOf(ci2.fn.Params[1]).String(), "H4", "motion config loaded for the connected camera's model into the shared config", w.InstrPos(loadCall), arg)
 		okDom := true
 		for _, c := range built {
 			if !(loadCall.Block() == c.Block() && instrIndex(loadCall) < instrIndex(c) || loadCall.Block() != c.Block() && loadCall.Block().Dominates(c.Block())) {
